@@ -208,7 +208,7 @@ def gen_api(rng: random.Random, idx: int) -> API:
     api = API("", root, "")
     pkgs = [root]
     if rng.random() < 0.7:
-        pkgs.append(f"{root}/{rng.choice(['core', 'sub', 'io_' + g.num(), '_impl'])}")
+        pkgs.append(f"{root}/{rng.choice(['core', 'subpkg', 'io_' + g.num(), '_impl'])}")
         if rng.random() < 0.4:
             pkgs.append(f"{pkgs[-1]}/{rng.choice(['deep', 'public_interface'])}")
     inits = {p: Module(id_=p, name="__init__") for p in pkgs}
